@@ -122,6 +122,24 @@ def main():
     eq(p, [63, -64, 63], 'int8')
     p = R.poison_fill('complex128', 2)
     assert np.isnan(p[0]) and abs(p[1]) > 1e300
+    # extended precision / byte-swapped dtypes: finite "huge", wide dtype never narrower
+    p = R.poison_fill('longdouble', 4)
+    assert np.isnan(p[0]) and np.isfinite(p[1]) and p[1] == p[3] and p.dtype == np.longdouble
+    assert p[1] == np.finfo(np.longdouble).max / 4
+    p = R.poison_fill('clongdouble', 2)
+    assert np.isnan(p[0]) and np.isfinite(p[1]) and p.dtype == np.clongdouble
+    p = R.poison_fill('>f8', 2)
+    assert np.isnan(p[0]) and p[1] == np.finfo('f8').max / 4 and p.dtype == np.dtype('>f8')
+    assert R.wide('float16') is np.float64 and R.wide('float32') is np.float64
+    assert R.wide('>f8') is np.float64 and R.wide('complex64') is np.complex128
+    assert R.wide('uint64') is np.int64 and R.wide('>i4') is np.int64
+    if np.dtype('longdouble').itemsize > 8:
+        assert R.wide('longdouble') is np.longdouble and R.wide('clongdouble') is np.clongdouble
+    eq(R.lincomb(2, [1, -0.5], -1, [3, 3], 'longdouble'), [-1, -4], 'longdouble')
+    eq(R.lincomb(1j, [1, -0.5j], 1, [0, 3], 'clongdouble'), [1j, 3.5], 'clongdouble')
+    eq(R.lincomb(2, [1, -0.5], -1, [3, 3], '>f8'), [-1, -4], '>f8')
+    eq(R.contents('longdouble', 5)[0], [-2, -0.5, 0, 1, 3], 'longdouble')
+    assert R.eps('longdouble') == float(np.finfo(np.longdouble).eps)
     assert R.first_diff([1, 2, 3], [1, 2, 3]) is None
     assert R.first_diff([1, 2, 3], [1, 5, 3]) == 1
     assert R.first_diff([1.0, np.nan], [1.0, 0.0]) == 1
